@@ -87,13 +87,19 @@ def workspaces(rng, quick):
     # multi-file: chains, diamonds, missing files, files in sub-directories (no cycles)
     for _ in range(40 if quick else 600):
         a, b, c = (rng.choice(texts) for _ in range(3))
-        shape = rng.choice(["chain", "diamond", "missing", "subdir"])
+        shape = rng.choice(["chain", "diamond", "missing", "subdir", "blockinc", "blockinc"])
         if shape == "chain":
             files = {"/main.td": 'include "b.td"\n' + a, "/b.td": 'include "c.td"\n' + b, "/c.td": c}
         elif shape == "diamond":
             files = {"/main.td": 'include "b.td"\ninclude "c.td"\n' + a, "/b.td": 'include "d.td"\n' + b, "/c.td": 'include "d.td"\n' + c, "/d.td": PRELUDE}
         elif shape == "missing":
             files = {"/main.td": 'include "b.td"\ninclude "nope.td"\n' + a + '\ninclude "b.td"\n', "/b.td": b}
+        elif shape == "blockinc":
+            # an include statement inside a block: the included declarations belong to another file than the block
+            opener = rng.choice(["defset list<A> S = {\n", "let v1 = 1 in {\n", "foreach i = [1, 2] in {\n", "if 1 then {\n", "multiclass MM {\n"])
+            # (main.td is kept short and b.td long, so that a range of b.td reported for main.td is out of bounds there)
+            files = {"/main.td": "class A;\n" + opener + 'include "b.td"\n' + "def inblock;\n}\n" + (a if rng.random() < 0.3 else ""),
+                     "/b.td": rng.choice(WIDE) * rng.randrange(40, 400) + "def fromb : A;\n" + b + "\ndef fromb2 : A { int f = 1; }\n"}
         else:
             files = {"/main.td": 'include "sub/b.td"\n' + a, "/sub/b.td": 'include "c.td"\n' + rng.choice(WIDE) + b, "/sub/c.td": c, "/c.td": "class Wrong;"}
         out.append((files, "/main.td", "multi"))
